@@ -71,6 +71,15 @@ define bot express greeting
 define flow greeting
   user express greeting
   bot express greeting
+
+define user ask value
+  "give me a value"
+
+define flow value
+  user ask value
+  # Produce a short answer for the user.
+  $answer = ...
+  bot $answer
 ''' + "".join(_out_v1(i) for i in range(1, N + 1))
 YAML_V1 = "enable_rails_exceptions: %s\nrails:\n  output:\n    flows:\n" % ("True" if EXC else "False") + "".join("      - out %d\n" % i for i in range(1, N + 1))
 if SHIPPED:
@@ -233,7 +242,15 @@ else:
     APP, LLM = rails.build(COLANG_V2, _y2, acts, colang_version="2.x")
     rails.install_handover()
 
-USER = ["hello", "tell me something"]
+USER = ["hello", "tell me something", "give me a value"]
+
+
+def _script(tid, t):
+    if tid == 0:
+        return ["  express greeting"]
+    if tid == 1:
+        return ["  ask question", "  bot respond", '  "%s"' % _llm_text(t)]
+    return ["  ask value", '"%s"' % _llm_text(t)]  # the value generated for `$answer = ...` is uttered with `bot $answer`
 
 
 def _llm_text(t):
@@ -423,11 +440,16 @@ def checked_v2_events(k0: int, i0: int, a0: int, k1: int, i1: int, b0: int, k2: 
     return why is None
 
 
+CARRY = sl("carry", "state")  # how the second call continues the conversation: explicit `state`, or the message history (events cache of the instance)
+
+
 def checked_v1_state(o0: int, t0: int, a0: int, o1: int, t1: int, b0: int) -> bool:
     """
-    Colang 1.0, two calls of one conversation continued through the explicit `state`; per call the output rails may be disabled by the generation options (o=1).
-    A call with output rails enabled checks its LLM-generated message whatever the earlier call did (in particular a predefined message with output rails disabled).
-    pre: 0 <= o0 <= 1 and 0 <= t0 <= 1 and 0 <= a0 <= 2 and 0 <= o1 <= 1 and 0 <= t1 <= 1 and 0 <= b0 <= 2
+    Colang 1.0, two calls of one conversation continued through the explicit `state` (or, slice carry=messages, by re-sending the message history);
+    per call the output rails may be disabled by the generation options (o=1); the bot text is predefined (t=0), LLM-generated (t=1) or an LLM-generated
+    value uttered with `bot $answer` (t=2). A call with output rails enabled checks its LLM text whatever the earlier call did.
+    pre: 0 <= o0 <= 1 and 0 <= t0 <= 2 and 0 <= a0 <= 2 and 0 <= o1 <= 1 and 0 <= t1 <= 2 and 0 <= b0 <= 2
+    pre: not SHIPPED
     pre: _fixed(o0=o0, t0=t0, o1=o1, t1=t1, a0=a0)
     post: _
     """
@@ -438,15 +460,21 @@ def checked_v1_state(o0: int, t0: int, a0: int, o1: int, t1: int, b0: int) -> bo
     state = None
     why = None
     info = []
+    history = []
     for t in range(2):
         Rec.turn = t
         Rec.log = []
-        tid = conc([t0, t1][t], 0, 1)
+        tid = conc([t0, t1][t], 0, 2)
         off = conc([o0, o1][t], 0, 1)
-        LLM.reset(script=["  express greeting"] if tid == 0 else ["  ask question", "  bot respond", '  "%s"' % _llm_text(t)])
+        LLM.reset(script=_script(tid, t))
         kw = {"options": {"rails": ["input", "dialog", "retrieval"]}} if off else {}
         try:
-            res = rails.generate(APP, [{"role": "user", "content": USER[tid]}], state=({} if state is None else state), **kw)
+            if CARRY == "state":
+                res = rails.generate(APP, [{"role": "user", "content": USER[tid]}], state=({} if state is None else state), **kw)
+            else:
+                history = history + [{"role": "user", "content": USER[tid]}]
+                res = rails.generate(APP, history, options=kw.get("options", {"log": {"activated_rails": True}}))
+                history = history + [res.response[0] if res.response[0].get("role") == "assistant" else {"role": "assistant", "content": "(blocked)"}]
         except rails.Escaped as e:
             why = "call %d: generate raised %s" % (t + 1, e)
             break
@@ -454,7 +482,7 @@ def checked_v1_state(o0: int, t0: int, a0: int, o1: int, t1: int, b0: int) -> bo
         v = Rec.verdicts[t][0]
         raw = "Hello there!" if tid == 0 else _llm_text(t)
         ran = [tuple(e) for e in Rec.log]
-        if tid == 1 and not off:
+        if tid >= 1 and not off:
             want_ran = [("out1", raw)]
             expect = raw if v == 0 else (_refusal(1) if v == 1 else "REWRITTEN_OUT1")
         else:
@@ -464,7 +492,7 @@ def checked_v1_state(o0: int, t0: int, a0: int, o1: int, t1: int, b0: int) -> bo
                 ran = []  # whether predefined messages are passed to the output rails is not fixed by the property
         if ran != want_ran:
             why = "output rail invocations %r, expected %r" % (ran, want_ran)
-        elif EXC and tid == 1 and not off and v == 1:
+        elif EXC and tid >= 1 and not off and v == 1:
             if res.response[0].get("role") != "exception":
                 why = "expected the rail exception, got %r" % (res.response,)
         elif res.response != [{"role": "assistant", "content": expect}]:
@@ -512,7 +540,9 @@ SPEC = {
                    "exception of the rejecting rail, and never contains a rejected text; this must hold in every turn whatever the earlier turns' verdicts were.",
     "conditions": [
         {"fn": "checked_v1_state", "tiers": ("quick", "thorough"), "slices": [{"n": 1, "exc": 0, "ver": "1.0", "turns": 2, "fix": {"o0": o, "t0": t, "o1": 0, "t1": t1, "a0": a}} for o in (0, 1) for t in (0, 1) for t1 in (0, 1) for a in (0, 1)
-                    if (a == 0 or (o == 0 and t == 1)) and not (t1 == 0 and o == 0)], "tcond": 900, "tpath": 120,
+                    if (a == 0 or (o == 0 and t == 1)) and not (t1 == 0 and o == 0)]
+                   + [{"n": 1, "exc": 0, "ver": "1.0", "turns": 2, "fix": {"o0": 0, "t0": 2, "o1": 0, "t1": 2, "a0": a}} for a in (0, 1)]
+                   + [{"n": 1, "exc": 0, "ver": "1.0", "turns": 2, "carry": "messages", "fix": {"o0": 1, "t0": t, "o1": 0, "t1": 1, "a0": 0}} for t in (0, 1)], "tcond": 900, "tpath": 120,
          "bound": "v1, 2 calls continued through `state`, output rails disabled by options in the first call or not",
          "smoke": [{"slice": {"n": 1, "exc": 0, "ver": "1.0", "turns": 2}, "args": dict(o0=1, t0=0, a0=0, o1=0, t1=1, b0=1)}]},
         {"fn": "checked_v2_events", "tiers": ("quick", "thorough"), "slices": [{"n": 1, "exc": 0, "ver": "2.x", "turns": 2, "v2prog": "events", "fix": {"k0": k, "i0": i, "k1": k1}} for k in (0, 1) for i in (0, 1) for k1 in (0, 1) if not (k == 1 and i == 1)],
